@@ -1,0 +1,74 @@
+//! Verification rigs. Compiled only with `--cfg rustdds_verif`; never part of a
+//! normal build. The rigs construct and drive the crate's real objects (Reader,
+//! Writer, MessageReceiver, DataReader, DiscoveryDB, ...) exactly as the
+//! crate's own unit tests do, and expose plain-data methods so that an external
+//! harness can replay model-generated behaviours and record traces.
+
+pub mod net;
+pub mod reader_rig;
+
+use std::sync::OnceLock;
+
+use serde::{Deserialize, Serialize};
+
+use crate::{
+  dds::{participant::DomainParticipant, topic::Topic, topic::TopicKind},
+  Keyed, QosPolicies,
+};
+
+/// Sample type used by all rigs: CDR = key:u32, id:u32, body: sequence<octet>
+#[derive(Serialize, Deserialize, Clone, Debug, PartialEq, Eq)]
+pub struct VSample {
+  pub key: u32,
+  pub id: u32,
+  pub body: Vec<u8>,
+}
+
+impl Keyed for VSample {
+  type K = u32;
+  fn key(&self) -> u32 {
+    self.key
+  }
+}
+
+pub const TOPIC_NAME: &str = "verif_topic";
+pub const TYPE_NAME: &str = "VSample";
+
+struct Shared {
+  dp: DomainParticipant,
+  topic_with_key: Topic,
+  topic_no_key: Topic,
+}
+
+static SHARED: OnceLock<Shared> = OnceLock::new();
+
+fn shared() -> &'static Shared {
+  SHARED.get_or_init(|| {
+    let domain: u16 = std::env::var("RUSTDDS_VERIF_DOMAIN")
+      .ok()
+      .and_then(|s| s.parse().ok())
+      .unwrap_or(77);
+    let dp = DomainParticipant::new(domain).expect("verif: DomainParticipant");
+    let topic_with_key = dp
+      .create_topic(
+        TOPIC_NAME.to_string(),
+        TYPE_NAME.to_string(),
+        &QosPolicies::qos_none(),
+        TopicKind::WithKey,
+      )
+      .expect("verif: topic");
+    let topic_no_key = dp
+      .create_topic(
+        format!("{TOPIC_NAME}_nk"),
+        TYPE_NAME.to_string(),
+        &QosPolicies::qos_none(),
+        TopicKind::NoKey,
+      )
+      .expect("verif: topic");
+    Shared {
+      dp,
+      topic_with_key,
+      topic_no_key,
+    }
+  })
+}
